@@ -450,6 +450,13 @@ func tfSchema() *schema.BodySchema {
 				},
 				Body: &schema.BodySchema{
 					Extensions: &schema.BodyExtensions{Count: true, ForEach: true},
+					// (the static body is what MergeBlockBodySchemas copies)
+					TargetableAs: schema.Targetables{
+						{Address: lang.Address{lang.RootStep{Name: "module"}, lang.AttrStep{Name: "anyobj"}}, ScopeId: "module", AsType: cty.Object(map[string]cty.Type{"id": cty.String}),
+							NestedTargetables: schema.Targetables{
+								{Address: lang.Address{lang.RootStep{Name: "module"}, lang.AttrStep{Name: "anyobj"}, lang.AttrStep{Name: "id"}}, ScopeId: "module", AsType: cty.String},
+							}},
+					},
 					Attributes: map[string]*schema.AttributeSchema{
 						"source":  {IsRequired: true, IsDepKey: true, Constraint: schema.LiteralType{Type: cty.String}, Description: md("module source")},
 						"version": {IsOptional: true, Constraint: schema.LiteralType{Type: cty.String}},
